@@ -169,14 +169,16 @@ def specs(ctx):
         for workers in (1, 2, 3):
             add(workers=workers, shape=shape(), patch=rng.choice(["centers", "name"]))
         # ---- creation OVER a pre-existing valid catalog, overwrite=True: fault kind x position x old size x mode
-        k = rng.randrange(len(OVER_FAULTS))
+        # (kind index advances by one per case, three cases per group, four kinds: every kind meets every position,
+        # the pairing differs from one old size / mode to the next; finalize faults alternate early / late)
+        k, fk = rng.randrange(len(OVER_FAULTS)), rng.randrange(2)
         for workers in (1, par()):
             for old in OLD_SIZES:
                 for pos in positions:
                     over_fault(OVER_FAULTS[k % len(OVER_FAULTS)], pos, workers, old, True)
                     k += 1
-                over_fault(("final", "final_late")[k % 2], "first", workers, old, True)
-                k += 1
+                over_fault(("final", "final_late")[fk % 2], "first", workers, old, True)
+                fk += 1
         for workers in (1, par()):
             add(workers=workers, pre="catalog_same", overwrite=True, shape=shape(), patch=rng.choice(["centers", "name"]))
             add(workers=workers, pre="catalog_more", overwrite=True, shape=shape(), patch=rng.choice(["centers", "name"]))
@@ -564,10 +566,10 @@ def signatures(spec, code, obs_kind, held="HClosed", held_how=""):
             sigs.append(("c09-preexisting-modified:%s:%s" % (shape, mode), "modifies the pre-existing path it has to leave untouched"))
     over = spec["pre"] in drv.CATALOG_PRES and spec["overwrite"]
     if code & 32:
-        if over and held == "HOther":
+        if over and held in ("HOther", "HNew"):
             sigs.append(("c09-failed-overwrite-leaves-openable-catalog:%s:%s" % (fshape, mode),
-                         "fails while overwriting a valid catalog and leaves a directory that opens as a catalog "
-                         "holding neither the old catalog nor the complete input (%s)" % held_how))
+                         "fails while overwriting a valid catalog and leaves a directory that is not the untouched old "
+                         "catalog and still opens as a catalog (%s)" % held_how))
         elif not par and place in ("InReader", "InWorker") and not early:
             sigs.append(("c09-sequential-error-finalizes-partial-catalog",
                          "raises but leaves a directory that opens as a (partial) catalog"))
